@@ -12,7 +12,7 @@
 // See the License for the specific language governing permissions and
 // limitations under the License.
 
-// +build !verif
+// +build verif
 
 #include "textflag.h"
 
@@ -20,10 +20,10 @@
 
 // See commit_noasm.go for a description of commitSleep.
 //
-// func commitSleep(g uintptr, waitingG *uintptr) bool
+// func commitSleep(gp uintptr, waitingG *uintptr) bool
 TEXT ·commitSleep(SB),NOSPLIT,$0-24
 	MOVQ waitingG+8(FP), CX
-	MOVQ g+0(FP), DX
+	MOVQ gp+0(FP), DX
 
 	// Store the G in waitingG if it's still preparingG. If it's anything
 	// else it means a waker has aborted the sleep.
